@@ -315,19 +315,32 @@ def late_naming(rep: Report, prog: Program, resolver: Resolver, ev: Evaluator) -
         cfg = CFG(fi.node).pruned(_initialized_decider(True))
         live = cfg.reachable(cfg.entry)
         ok = False
+        looks: Set[int] = set()
         for nid in live:
             nd = cfg.nodes[nid]
-            if nd.kind != "stmt" or nd.ast is None or isinstance(nd.ast, ast.Return):
+            if nd.ast is None or isinstance(nd.ast, ast.Return):
+                continue
+            if nd.kind == "test" and isinstance(nd.ast, (ast.If, ast.While)):
+                # a decision taken on the given name / symbol looks at it (`if name or symbol:`)
+                if {"name", "symbol"} & {x.id for x in ast.walk(nd.ast.test) if isinstance(x, ast.Name)}:
+                    looks.add(nid)
+                continue
+            if nd.kind != "stmt":
                 continue
             used = {x.id for x in ast.walk(nd.ast) if isinstance(x, ast.Name)}
             acts = any(isinstance(x, (ast.Call, ast.Assign, ast.Raise)) for x in ast.walk(nd.ast))
             if {"name", "symbol"} & used and acts:
                 ok = True
+                looks.add(nid)
+        # ... and on *every* path of that arm: a guard on the instance's own state (`if self.name is None:`) in front of the
+        # registration drops the declaration for some instances
+        if ok and cfg.exit_return in cfg.reachable(cfg.entry, avoid=looks):
+            ok = False
         handles[cls] = ok
         if cls in decl_classes:
             rep.check("R19.3", f"{cls}.__init__:initialized-path", ok,
                       f"{cls}(..., name=, symbol=) is the declaring API ({decl_classes[cls]} shipped declarations) but for an "
-                      "already interned instance __init__ returns before looking at name/symbol: a structurally equal anonymous "
+                      "already interned instance __init__ can return without looking at name/symbol: a structurally equal "
                       "object created earlier makes the declaration a silent no-op", fi.where())
         else:
             rep.inventory("R19.3i", {"class": cls, "early_return_ignores_names": not ok,
@@ -467,11 +480,13 @@ def lookup_by_name(rep: Report, prog: Program) -> None:
     """R19.10: `named(name)` answers from the name registry with the given name and from nothing else.  Names and
     symbols are separate namespaces: routing the lookup through symbol resolution returns another unit whenever a
     declared name reads like a (prefixed) symbol."""
-    for cls in ("Unit", "Dimension"):
+    # Prefix.resolve_symbol is the same kind of lookup over the prefix symbols: a respelling in front of the table ("u" -> "μ")
+    # answers with another prefix than the one a later `Prefix(.., symbol="u")` declares
+    for cls, meth, table in (("Unit", "named", "_by_name"), ("Dimension", "named", "_by_name"), ("Prefix", "resolve_symbol", "_by_symbol")):
         ci = prog.cls(cls)
-        if "named" not in ci.methods:
+        if meth not in ci.methods:
             continue
-        fi = prog.functions[ci.methods["named"]]
+        fi = prog.functions[ci.methods[meth]]
         nm = fi.params()[1] if len(fi.params()) > 1 else "name"
         defs = {n.targets[0].id: n.value for n in ast.walk(fi.node) if isinstance(n, ast.Assign) and len(n.targets) == 1 and isinstance(n.targets[0], ast.Name)}
         rets = [r for r in ast.walk(fi.node) if isinstance(r, ast.Return) and r.value is not None]
@@ -485,14 +500,14 @@ def lookup_by_name(rep: Report, prog: Program) -> None:
             class _Al(ast.NodeTransformer):
                 def visit_Name(self, n_: ast.Name) -> ast.AST:
                     d_ = defs.get(n_.id)
-                    return _copy.deepcopy(d_) if isinstance(d_, ast.Attribute) and d_.attr == "_by_name" else n_
+                    return _copy.deepcopy(d_) if isinstance(d_, ast.Attribute) and d_.attr == table else n_
             v = _Al().visit(_copy.deepcopy(v))
             t = ast.unparse(v).replace(" ", "")
-            good = (t.endswith(f"._by_name[{nm}]") or t.endswith(f"._by_name.get({nm})") or f"._by_name.get({nm}," in t) and nm not in defs
+            good = (t.endswith(f".{table}[{nm}]") or t.endswith(f".{table}.get({nm})") or f".{table}.get({nm}," in t) and nm not in defs
             if not good and not (isinstance(v, ast.Constant) and v.value is None):
                 ok, bad = False, ast.unparse(v)[:50]
-        rep.check("R19.10", f"{cls}.named", ok, f"{cls}.named returns `{bad}` instead of the entry of the name registry for `{nm}`: a declared name that is also "
-                  "a symbol spelling (ft, pt, min) resolves to a different object than the one it was declared for", fi.where())
+        rep.check("R19.10", f"{cls}.{meth}", ok, f"{cls}.{meth} returns `{bad}` instead of the entry of the registry {table} for `{nm}`: a declared name or symbol "
+                  "that is also another spelling (ft, pt, min; u for μ) resolves to a different object than the one it was declared for", fi.where())
 
 
 def memo_over_registries(rep: Report, prog: Program, resolver: Resolver, rid: str) -> None:
@@ -535,7 +550,7 @@ def run(rep: Report) -> None:
              "never one fetched from a name/symbol registry", floor=3)
     rep.rule("R19.11", "no assert statement in the functions that validate or register names (python -O deletes it)", floor=5)
     rep.rule("R19.12", "the name and symbol registries are plain dicts", floor=5)
-    rep.rule("R19.10", "named(name) is the name registry's entry for that name", floor=2)
+    rep.rule("R19.10", "named(name) is the name registry's entry for that name, Prefix.resolve_symbol(symbol) the prefix symbol registry's entry for that symbol", floor=3)
     rep.rule("R19.9", "no shipped dimension or prefix is declared under two names (a second Dimension.derive / Prefix(...) of an equal object renames or doubly names the first)", floor=2)
     rep.rule("R19.6", "no memoised function reads the name/symbol registries without being invalidated by their writers", floor=1)
 
